@@ -251,3 +251,29 @@ pub fn permutations(n: usize) -> Vec<Vec<usize>> {
     }
     out
 }
+
+/// A container whose by-reference iterator skips holes: its `size_hint` upper bound is loose (the slice length),
+/// like a collection that filters invalid readings. Every generic front-end (`&I: IntoIterator<Item = &T>`) must
+/// treat it exactly like the dense data.
+#[derive(Clone, Debug)]
+pub struct Sparse<T>(pub Vec<Option<T>>);
+impl<'a, T> IntoIterator for &'a Sparse<T> {
+    type Item = &'a T;
+    type IntoIter = std::iter::FilterMap<std::slice::Iter<'a, Option<T>>, fn(&'a Option<T>) -> Option<&'a T>>;
+    fn into_iter(self) -> Self::IntoIter {
+        fn pick<T>(o: &Option<T>) -> Option<&T> {
+            o.as_ref()
+        }
+        self.0.iter().filter_map(pick::<T> as fn(&'a Option<T>) -> Option<&'a T>)
+    }
+}
+/// dense data with `holes` (>= 1) holes inserted at positions derived from `code`
+pub fn sparse<T: Clone>(data: &[T], code: u64, holes: usize) -> Sparse<T> {
+    let mut v: Vec<Option<T>> = data.iter().cloned().map(Some).collect();
+    let mut g = crate::engine::SplitMix(code ^ 0x5eed);
+    for _ in 0..holes.max(1) {
+        let pos = g.below(v.len() as u64 + 1) as usize;
+        v.insert(pos, None);
+    }
+    Sparse(v)
+}
